@@ -433,12 +433,19 @@ func (a roState) diff(b roState) string {
 	return strings.Join(out, "; ")
 }
 
-func (e *roEnv) runCase(t ev.Failer, c *ev.Collector, rc roCase) (labels []string, ntKey string) {
+func (e *roEnv) runCase(t ev.Failer, c *ev.Collector, rc roCase) (labels []string, ntKey string, effective bool) {
 	t.Helper()
 	fail := func(key, what string) { c.Fail(t, key, what, rc) }
 	if !e.clean {
 		if err := e.reseed(); err != nil {
 			fail("harness:setup", err.Error())
+		}
+	}
+	// enabling prelude: make what the drawn command addresses exist
+	for _, pc := range rc.Prelude {
+		e.clean = false
+		if v, err := e.c.Do(pc...); err != nil || v.IsErr() {
+			fail("harness:setup", fmt.Sprintf("prelude %q: %v %v", pc, v, err))
 		}
 	}
 	before, err := e.state()
@@ -479,6 +486,7 @@ func (e *roEnv) runCase(t ev.Failer, c *ev.Collector, rc roCase) (labels []strin
 	}
 	if changed != "" {
 		e.clean = false
+		effective = true
 		labels = append(labels, "eval-changes-state:"+cmdName)
 		if !v1.IsErr() {
 			fail("evalro-accepted-write:"+cmdName, fmt.Sprintf("%s %q with %q answered %s although the same call under %s changes state (%s)", strings.ToUpper(rc.Variant), src, argv, v1, strings.ToUpper(rw), changed))
@@ -499,13 +507,40 @@ func (e *roEnv) runCase(t ev.Failer, c *ev.Collector, rc roCase) (labels []strin
 	} else {
 		labels = append(labels, "evalro-answered")
 	}
-	return labels, ntKey
+	// direct twin: some writes (JDEL, the hook/channel family, FLUSHDB) are
+	// not available to EVAL at all, so the EVAL twin cannot tell whether the
+	// drawn arguments were effective; sending the command itself can
+	if changed == "" && dataWrites[rc.Label] {
+		v3, err := e.c.Do(rc.Call...)
+		if err != nil {
+			fail("script-transport", err.Error())
+		}
+		after3, err := e.state()
+		if err != nil {
+			fail("harness:dump", err.Error())
+		}
+		if d := after2.diff(after3); d != "" {
+			e.clean = false
+			effective = true
+			labels = append(labels, "direct-changes-state:"+cmdName)
+			if !v1.IsErr() {
+				fail("evalro-accepted-write:"+cmdName, fmt.Sprintf("%s %q with %q answered %s although the command changes state when sent directly (%s, reply %s)", strings.ToUpper(rc.Variant), src, argv, v1, d, v3))
+			}
+			if ntKey == "" {
+				ntKey = fmt.Sprintf("%s|direct|%s|%s|%s", rc.Label, rc.Variant, rc.Style, rc.Args)
+			}
+		}
+	}
+	if effective {
+		labels = append(labels, "effective:"+cmdName)
+	}
+	return labels, ntKey, effective
 }
 
 func TestC18_ReadOnly(t *testing.T) {
 	c := ev.New(prop, "readonly", "exploration")
 	t.Cleanup(c.Flush)
-	c.Rule("for EVERY case label of func (s *Server) command (parsed from internal/server/server.go at run time; two-word labels are sent as two arguments) and generated arguments (documented grammar aimed at seeded objects for the write commands, plausible arguments for reads, 1 in 6 arbitrary token lists, drawn letter case, 1 in 10 wrapped in TIMEOUT): `return tile38.call|pcall(...)` under EVALRO/EVALROSHA must leave dataset (objects, fields, TTL flags, hooks, channels), aof_size, log file size and read_only unchanged; then the same script under EVAL/EVALSHA: whenever that changes any of them, the EVALRO run must have answered an error; for the system commands (FOLLOW, CONFIG *, SHUTDOWN, SETHOOK/SETCHAN family, AOF*, OUTPUT, CLIENT, SCRIPT *, EVAL*, pub/sub, ...) the EVAL run itself must be refused and change nothing, including the list of files in the data directory. Non-trivial: the EVAL run changed state (so the read-only refusal was load-bearing); distinct by command, option set, variant, call style.")
+	c.Rule("for EVERY case label of func (s *Server) command (parsed from internal/server/server.go at run time; two-word labels are sent as two arguments) and generated arguments (for the 18 data-writing labels 4 in 5 cases are targeted: aimed at an object/key/document path/hook/channel the seed holds, or that an ENABLING PRELUDE drawn with the case creates first - EXPIRE before PERSIST, JSET of the path before JDEL, SETCHAN/SETHOOK before DELCHAN/DELHOOK, a free target for RENAMENX; otherwise documented grammar over a small alphabet, plausible arguments for reads, 1 in 6 arbitrary token lists, 1 in 10 wrapped in TIMEOUT; drawn letter case): `return tile38.call|pcall(...)` under EVALRO/EVALROSHA must leave dataset (objects, fields, TTL flags, hooks, channels), aof_size, log file size and read_only unchanged; then the same script under EVAL/EVALSHA: whenever that changes any of them, the EVALRO run must have answered an error; for the system commands (FOLLOW, CONFIG *, SHUTDOWN, SETHOOK/SETCHAN family, AOF*, OUTPUT, CLIENT, SCRIPT *, EVAL*, pub/sub, ...) the EVAL run itself must be refused and change nothing, including the list of files in the data directory. For the data-writing labels whose EVAL twin left the state alone the command is finally sent directly (JDEL, FLUSHDB and the hook/channel family are not available to EVAL, so only the direct twin can show that the drawn arguments were effective); EVALRO must have refused whatever is effective there too. Per label the number of effective cases is reported (labels effective:<cmd>, notes); a data-writing label that is never effective in a run is flagged as a generator defect. Non-trivial: the EVAL or direct twin changed state (so the read-only refusal was load-bearing); distinct by command, option set, variant, call style.")
 	table, err := commandTable()
 	if err != nil || len(table) < 60 {
 		t.Fatalf("command table: %d labels, err %v", len(table), err)
@@ -524,18 +559,21 @@ func TestC18_ReadOnly(t *testing.T) {
 	c.States(len(table), 0)
 	e := newROEnv(t)
 	defer e.close()
-	scriptWrites := map[string]bool{"set": true, "fset": true, "del": true, "pdel": true, "drop": true, "rename": true, "renamenx": true, "expire": true, "persist": true, "jset": true}
+	var neverEffective []string
 	for _, label := range table {
 		label := label
 		per := ev.Pick(25, 40)
-		if scriptWrites[label] {
-			per = ev.Pick(150, 400)
+		if dataWrites[label] {
+			per = ev.Pick(100, 300)
 		}
+		nCases, nEffective := 0, 0
 		ev.Rapid("readonly/"+label, per)
 		rapid.Check(t, func(rt *rapid.T) {
+			call, prelude := roArgs(rt, label)
 			rc := roCase{
 				Label:   label,
-				Call:    roArgs(rt, label),
+				Prelude: prelude,
+				Call:    call,
 				Variant: sf(rt, "variant", "evalro", "evalro", "evalrosha"),
 				Style:   sf(rt, "style", "call", "pcall"),
 				Args:    sf(rt, "args", "argv", "literal"),
@@ -547,7 +585,11 @@ func TestC18_ReadOnly(t *testing.T) {
 			}
 			c.Case()
 			c.Label("cmd:" + label)
-			labels, nt := e.runCase(rt, c, rc)
+			labels, nt, eff := e.runCase(rt, c, rc)
+			nCases++
+			if eff {
+				nEffective++
+			}
 			for _, l := range labels {
 				c.Label(l)
 			}
@@ -558,5 +600,17 @@ func TestC18_ReadOnly(t *testing.T) {
 				}
 			}
 		})
+		if dataWrites[label] {
+			c.Note("effective %s: %d of %d cases changed the dataset under EVAL or when sent directly", label, nEffective, nCases)
+			if nEffective == 0 {
+				neverEffective = append(neverEffective, label)
+			}
+		}
+	}
+	if len(neverEffective) > 0 {
+		// a generator defect, not a property violation: the implication
+		// "effective write => EVALRO refuses it" was never exercised
+		c.Inconclusive("readonly: GENERATOR DEFECT - the write commands %v were never effective in this run, the read-only oracle was vacuous for them", neverEffective)
+		t.Errorf("generator defect: %v never effective", neverEffective)
 	}
 }
